@@ -11,6 +11,37 @@ INT_DTYPES = ['uint8', 'int8', 'uint16', 'int16', 'uint32', 'int32', 'int64', 'u
 I2_LAYOUTS = ['C', 'F', 'strided', 'negstride', 'offset', 'transposed', 'swapped']
 
 
+def _data(case):
+    """explicit `data`, or a compact description of a big image (`fill`): a constant or a seeded LCG stream"""
+    if 'data' in case:
+        return case['data']
+    f = case['fill']
+    n = int(np.prod(case['shape']))
+    if f['kind'] == 'const':
+        return [f['value']] * n
+    lo, hi, x = f['lo'], f['hi'], f['seed']
+    out = []
+    for _ in range(n):
+        x = (x * 6364136223846793005 + 1442695040888963407) % (1 << 64)
+        out.append(lo + (x >> 33) % (hi - lo + 1))
+    return out
+
+
+def _prefix_exact(vals, h, w):
+    """exact two-dimensional prefix sums of integers in O(h*w) (Python integers)"""
+    out = [0] * (h * w)
+    for i in range(h):
+        run = 0
+        for j in range(w):
+            run += vals[i * w + j]
+            out[i * w + j] = run + (out[(i - 1) * w + j] if i else 0)
+    return out
+
+
+BIG = 4096      # above this many pixels the Lean driver is not asked (its *specification* is quadratic); the O(N) Python oracle
+                # above is the judge — on every small case the two are compared with each other (`integral:spec-vs-python`)
+
+
 def _wrap(v: int, bits: int, signed: bool) -> int:
     m = 1 << bits
     r = v % m
@@ -27,7 +58,7 @@ def eval_integral2(case):
     numpy shows (or refused with ValueError when asked to work in place)."""
     from mahotas.features import surf
     idt = np.dtype(case['dtype'])
-    f = np.array(case['data'], dtype=object).astype(idt).reshape(case['shape'])
+    f = np.array(_data(case), dtype=object).astype(idt).reshape(case['shape'])
     layout = case.get('layout', 'C')
     if layout == 'swapped':
         f = f.astype(idt.newbyteorder('S'))
@@ -39,7 +70,7 @@ def eval_integral2(case):
         odt = odt.newbyteorder('S')
     before = np.array(f.astype(_native(f.dtype)), copy=True)
     tags = dict(kind='integral2', dtype=case['dtype'], out=str(_native(odt)), layout=layout, inplace=int(inplace),
-                swap_out=int(bool(case.get('swap_out'))))
+                swap_out=int(bool(case.get('swap_out'))), size=case.get('size', 'small'))
     sig = json.dumps(case, sort_keys=True)
     findings = []
     try:
@@ -76,29 +107,30 @@ def eval_integral2(case):
     if nodt.kind in 'iu':
         bits = nodt.itemsize * 8
         vals = [int(x) for x in conv.ravel().tolist()]
-        drv = core.drive([f"c19 kind=integral w={w} data={gen.enc_arr(vals)} bits={bits} signed={1 if nodt.kind == 'i' else 0}"])[0]
+        big = h * w > BIG
+        drv = None if big else core.drive([f"c19 kind=integral w={w} data={gen.enc_arr(vals)} bits={bits} signed={1 if nodt.kind == 'i' else 0}"])[0]
         gl = [int(x) for x in got.ravel().tolist()]
         # independent expectation: exact prefix sums in Python integers, reduced once
-        want = []
-        for i in range(h):
-            for j in range(w):
-                s = sum(vals[a * w + b] for a in range(i + 1) for b in range(j + 1))
-                want.append(_wrap(s, bits, nodt.kind == 'i'))
+        want = [_wrap(s, bits, nodt.kind == 'i') for s in _prefix_exact(vals, h, w)]
         if gl != want:
             k = next(i for i, (a, b) in enumerate(zip(gl, want)) if a != b)
             findings.append(dict(kind='property', key='integral:prefix-sum' + (':swapped' if layout == 'swapped' or case.get('swap_out') else ''),
                                  detail=dict(pos=[k // w, k % w], got=gl[k], want=want[k])))
-        else:
+        elif drv is not None:
             if core.ints(drv['spec']) != want:
                 findings.append(dict(kind='model', key='integral:spec-vs-python', detail={}))
             if core.ints(drv.get('machine', '')) != gl:
                 findings.append(dict(kind='model', key='integral:machine-model', detail={}))
     else:
         c64 = conv.astype(np.float64)
-        exact = np.array([[math.fsum(float(c64[a, b]) for a in range(i + 1) for b in range(j + 1)) for j in range(w)]
-                          for i in range(h)]).reshape(h, w)
+        if bool(np.all(c64 == np.round(c64))):
+            exact = np.array([float(v) for v in _prefix_exact([int(v) for v in c64.ravel().tolist()], h, w)]).reshape(h, w)
+        else:
+            exact = np.array([[math.fsum(float(c64[a, b]) for a in range(i + 1) for b in range(j + 1)) for j in range(w)]
+                              for i in range(h)]).reshape(h, w)
         scale = math.fsum(abs(float(v)) for v in c64.ravel())
-        allint = bool(np.all(c64 == np.round(c64))) and scale < (2 ** 53 if nodt == np.float64 else 2 ** 24)
+        # the recurrence forms a(i-1,j) + a(i,j-1) before subtracting: intermediates reach twice the prefix sum
+        allint = bool(np.all(c64 == np.round(c64))) and 3 * scale < (2 ** 53 if nodt == np.float64 else 2 ** 24)
         R = got.astype(np.float64)
         eps = 1e-9 if nodt == np.float64 else 1e-4
         ok = np.array_equal(R, exact) if allint else bool(np.all(np.abs(R - exact) <= eps * max(scale, 1e-300)))
@@ -106,7 +138,7 @@ def eval_integral2(case):
             k = int(np.argmax(np.abs(R - exact)))
             findings.append(dict(kind='property', key='integral:prefix-sum' + (':swapped' if layout == 'swapped' or case.get('swap_out') else ''),
                                  detail=dict(pos=[k // w, k % w], got=float(R.ravel()[k]), want=float(exact.ravel()[k]))))
-        elif nodt == np.float64 and h * w:
+        elif nodt == np.float64 and 0 < h * w <= BIG:
             drv = core.drive([f"c19 kind=integralf w={w} data={core.fmt_floats(c64)}"])[0]
             M = core.floats(drv['model']).reshape(h, w)
             if not np.array_equal(M, R):
@@ -131,7 +163,7 @@ def eval_moments2(case):
     """moments(img, p0, p1, cm, convert_to_float, normalize/normalise) against the exact rational value of the formula
     `momentsFull` transliterates (proved: plain = defining sum; normalised = defining sum / the two weight sums)."""
     import mahotas as mh
-    img = np.array(case['data'], dtype=object).astype(case['dtype']).reshape(case['shape'])
+    img = np.array(_data(case), dtype=object).astype(case['dtype']).reshape(case['shape'])
     p0, p1 = case['p0'], case['p1']
     cm = case.get('cm')
     nz = bool(case.get('normalize'))
@@ -142,7 +174,8 @@ def eval_moments2(case):
         kw['convert_to_float'] = False
     before = img.copy()
     sig = json.dumps(case, sort_keys=True)
-    tags = dict(kind='moments2', dtype=case['dtype'], normalize=int(nz), cm=int(cm is not None), convert=int(case.get('convert', True)))
+    tags = dict(kind='moments2', dtype=case['dtype'], normalize=int(nz), cm=int(cm is not None), convert=int(case.get('convert', True)),
+                size=case.get('size', 'small'))
     r, c = img.shape
     c0, c1 = (Fraction(float(cm[0])), Fraction(float(cm[1]))) if cm is not None else (Fraction(0), Fraction(0))
     w1, k1 = _weights(c, p1, c1, nz)
@@ -165,7 +198,7 @@ def eval_moments2(case):
     terms = [vals[i][j] * w0[i] * w1[j] for i in range(r) for j in range(c)]
     want = sum(terms)
     scale = float(sum(abs(t) for t in terms))
-    tol = 1e-13 * k0 * k1 * max(scale, 1e-300) * max(r * c, 4)
+    tol = 1e-13 * k0 * k1 * max(scale, 1e-300) * min(max(r * c, 4), 1024)
     if not abs(got - float(want)) <= tol:
         key = 'moments:normalize-model' if nz else 'moments:defining-sum'
         findings.append(dict(kind='model' if nz else 'property', key=key,
@@ -175,7 +208,7 @@ def eval_moments2(case):
                   - float(want)) > tol):
         # C19_moments_translation: a zero row on top / zero column on the left with the centre moved along
         findings.append(dict(kind='property', key='moments:translation', detail=dict(p0=p0, p1=p1, cm=cm)))
-    else:
+    elif r * c <= BIG:
         line = (f"c19 kind=momentsf w={c} data={core.fmt_floats(img.astype(np.float64))} p0={p0} p1={p1} "
                 f"hascm={1 if cm is not None else 0} cm={core.fmt_floats([float(cm[0]), float(cm[1])] if cm is not None else [0.0, 0.0])} "
                 f"normalize={1 if nz else 0}")
@@ -245,6 +278,19 @@ def cases(rng, N):
                 data = [int(max(-2 ** 40, min(2 ** 40, v))) for v in data]
         out.append(dict(kind='integral2', shape=shape, dtype=dtype, data=data, out=out_dt, layout=layout,
                         inplace=int(inplace), swap_out=int(rng.random() < 0.25)))
+    # --- size-threshold stream: element counts and sums crossing 2^8, 2^15, 2^16, 2^31, 2^32 (O(N) Python oracle)
+    thr = [([257, 256], 'uint8', dict(kind='const', value=255), ['uint16', 'int32', 'float64', 'float32']),
+           ([1, 65537], 'uint16', dict(kind='const', value=65535), ['uint32', 'int32', 'int64', 'uint16']),
+           ([65537, 1], 'uint16', dict(kind='lcg', lo=0, hi=65535, seed=rng.randrange(1 << 32)), ['uint32', 'int64', 'float64']),
+           ([255, 257], 'int16', dict(kind='lcg', lo=-32768, hi=32767, seed=rng.randrange(1 << 32)), ['int16', 'int32', 'float64']),
+           ([129, 255], 'uint8', dict(kind='lcg', lo=0, hi=255, seed=rng.randrange(1 << 32)), ['uint8', 'uint16', 'int64'])]
+    for shape, dtype, fill, outs in (thr if N > 1 else [thr[1], thr[2], rng.choice([thr[0], thr[3], thr[4]])]):
+        out.append(dict(kind='integral2', shape=shape, dtype=dtype, fill=fill, out=rng.choice(outs),
+                        layout=rng.choice(['C', 'F', 'strided']), inplace=0, swap_out=0, size='threshold'))
+    for shape, dtype, fill in ([([257, 256], 'uint8', dict(kind='lcg', lo=0, hi=255, seed=rng.randrange(1 << 32))),
+                               ([1, 65537], 'uint16', dict(kind='const', value=65535))]):
+        out.append(dict(kind='moments2', shape=shape, dtype=dtype, fill=fill, p0=rng.randint(0, 2), p1=rng.randint(0, 2),
+                        cm=rng.choice([None, [3, 5]]), normalize=0, convert=int(rng.random() < 0.5), size='threshold'))
     # --- moments options
     for _ in range(200 * N):
         shape = [rng.randint(1, 7), rng.randint(1, 7)]
@@ -272,7 +318,7 @@ def cases(rng, N):
 
 def shrink(case):
     k = case.get('kind')
-    if k in ('integral2', 'moments2'):
+    if k in ('integral2', 'moments2') and 'data' in case:
         shape, data = case['shape'], case['data']
         A = np.array(data, dtype=object).reshape(shape)
         for ax in range(2):
